@@ -87,6 +87,54 @@ def lemma_lossless(ctx, view, child):
     return True, "all joins follow NOT NULL foreign keys; grouped by level id"
 
 
+def _float_form(e):
+    """Canonical tree of the floating-point operations of an SQL expression: literals as floats, integer-only constant
+    sub-expressions folded (exact), CAST to a real type dropped (the identity on the value), operands of + and * sorted
+    (IEEE addition and multiplication commute; nothing is re-associated).  None if the expression has other node kinds."""
+    from fractions import Fraction
+
+    def const_int(x):
+        if x[0] == "num":
+            try:
+                v = Fraction(str(x[1]))
+            except Exception:
+                return None
+            return v if v.denominator == 1 and "." not in str(x[1]) and "e" not in str(x[1]).lower() else None
+        if x[0] == "bin" and x[1] in ("+", "-", "*"):
+            a, b = const_int(x[2]), const_int(x[3])
+            if a is None or b is None:
+                return None
+            return a + b if x[1] == "+" else (a - b if x[1] == "-" else a * b)
+        return None
+
+    def rec(x):
+        ci = const_int(x)
+        if ci is not None:
+            return ("k", float(ci))
+        if x[0] == "num":
+            try:
+                return ("k", float(x[1]))
+            except Exception:
+                return None
+        if x[0] == "col":
+            return ("col", x[2])
+        if x[0] == "cast":
+            ty = str(x[2]).upper()
+            if any(t in ty for t in ("REAL", "DOUBLE", "FLOAT")):
+                return rec(x[1])
+            return None
+        if x[0] == "bin" and x[1] in ("+", "-", "*", "/"):
+            a, b = rec(x[2]), rec(x[3])
+            if a is None or b is None:
+                return None
+            if x[1] in ("+", "*"):
+                a, b = sorted((a, b), key=repr)
+            return (x[1], a, b)
+        return None
+
+    return rec(e)
+
+
 def run(ctx, chk, tier="quick"):
     chk.explanation = (
         "Symbolic construction (per parameterisation branch) of the line lists written by the six "
@@ -98,6 +146,9 @@ def run(ctx, chk, tier="quick"):
     )
     chk.assumptions = ["PEST names are case-insensitive", "yaml.dump writes a float list as '- <repr>' lines (number starts in column 3)",
                        "repr(float) is at most 24 characters", "foreign keys hold in the dataset (enforced at load; level ids contained in the grid: C13.O5)"]
+    from ..sqlrules import lossy_functions
+    lossy_functions(ctx, chk, "C19.O3", ("pestfiles",), "pestfiles",
+                    "observation values written to the control file are the master-curve values: a rounded or clipped value is not what the simulation is compared with")
     from .. import sqltypes
     sqltypes.check(ctx, chk, "C19.O3", modules=("pestfiles",), views=("average_rising_depth", "average_recession_time"))
     _truthiness_filters(ctx, chk)
@@ -316,6 +367,14 @@ def run(ctx, chk, tier="quick"):
                                         return [unq(x) for x in e]
                                     return e
                                 same = sql_poly(unq(mcols[0])) == sql_poly(unq(col0))
+                                if same:
+                                    fa, fb = _float_form(unq(mcols[0])), _float_form(unq(col0))
+                                    if fa is not None and fb is not None:
+                                        chk.ob("C19.O3", fa == fb, where_of(f, it.node),
+                                               "%s %s: observation value computed as %s ; the simulate command computes %s" % (kind, sy, _expr(col0), _expr(mcols[0])),
+                                               "the same sequence of floating-point operations (equal as real numbers is not enough: x / 3600 / 24 rounds twice, x / 86400 once)",
+                                               key="%s|%s|obs-vs-simulate-float|%s" % (f.qualname, sy, tab),
+                                               why="the k-th observation must be the measured value the simulate command reports for that level, not a neighbouring floating-point number")
                                 chk.ob("C19.O3", same, where_of(f, it.node),
                                        "%s %s: observation value = %s ; the simulate command compares with %s" % (kind, sy, _expr(col0), _expr(mcols[0])),
                                        "the same expression of the view's column", key="%s|%s|obs-vs-simulate|%s" % (f.qualname, sy, tab),
